@@ -651,7 +651,20 @@ func (p *Prog) sortedBefore(at ssa.Instruction, fn *ssa.Function, list ssa.Value
 				continue
 			}
 			if call.Call.Args[0] == list && instrDominates(call, at) {
-				return true
+				// ... and it is still sorted there: everything else that writes the elements of
+				// this slice (the copy that fills it) happens before the sort
+				still := true
+				for _, w := range p.alias().contentWritesIn(fn) {
+					if w.In == ssa.Instruction(call) || stripChangeType(w.Target) != stripChangeType(list) {
+						continue
+					}
+					if instrReachableFrom(call, w.In) {
+						still = false
+					}
+				}
+				if still {
+					return true
+				}
 			}
 		}
 	}
@@ -1436,6 +1449,40 @@ func (p *Prog) forAllByContainsFunc(fn *ssa.Function) bool {
 				return isMap
 			}
 		}
+	}
+	return false
+}
+
+// instrReachableFrom: b can execute after a (later in the same block, or in a block reachable
+// from a's block through its successors).
+func instrReachableFrom(a, b ssa.Instruction) bool {
+	if a.Block() == b.Block() {
+		ia, ib := -1, -1
+		for i, in := range a.Block().Instrs {
+			if in == a {
+				ia = i
+			}
+			if in == b {
+				ib = i
+			}
+		}
+		if ib > ia {
+			return true
+		}
+	}
+	seen := map[*ssa.BasicBlock]bool{}
+	stack := append([]*ssa.BasicBlock{}, a.Block().Succs...)
+	for len(stack) > 0 {
+		x := stack[len(stack)-1]
+		stack = stack[:len(stack)-1]
+		if seen[x] {
+			continue
+		}
+		seen[x] = true
+		if x == b.Block() {
+			return true
+		}
+		stack = append(stack, x.Succs...)
 	}
 	return false
 }
